@@ -432,6 +432,7 @@ func (p *sparser) parsePrimary() SExpr {
 // ---- contract files
 
 type Clause struct {
+	Trusted bool // assumed at call sites, not an obligation of the body (justified elsewhere, listed in evidence)
 	Local   bool // post-condition over the function's locals: an obligation of the function, not visible to callers
 	Witness map[string]SExpr // hints: witnesses for the outermost existential(s) of the clause
 	Label string
@@ -553,9 +554,21 @@ type GhostDef struct {
 	Name string
 	Type string
 	Pkg  string
+	// Protected: only contracts that name the ghost in an assigns clause change it; a havoc of "everything"
+	// (unknown callee) leaves it alone. Sound only together with a structural obligation that closes the
+	// set of callers of the functions whose contracts assign it.
+	Protected bool
+}
+
+// ImmutableDef: heap keys that are written only while the object is being constructed (justified by a
+// writers_subset structural obligation); a havoc of "everything" leaves them alone.
+type ImmutableDef struct {
+	Spec string
+	Pkg  string
 }
 
 type SpecFile struct {
+	Immutables []ImmutableDef
 	Path      string
 	Pkg       string
 	Contracts []*Contract
@@ -565,7 +578,7 @@ type SpecFile struct {
 	Lemmas    []*Lemma
 }
 
-var keywordRe = regexp.MustCompile(`^(package|func|interface|requires|ensures|assigns|invariant|decreases|loop|pure|pred|axiom|ghost|nopanic|let|letold|reads|trusted|callback|cb_requires|cb_ensures|cb_assigns|cb_pure|inline|opaque|modifies|implements|lemma|call|assert|probe|uses|records|witness|forget|checks|havocs|reveal)\b`)
+var keywordRe = regexp.MustCompile(`^(package|func|interface|requires|ensures|assigns|invariant|decreases|loop|pure|pred|axiom|ghost|nopanic|let|letold|reads|trusted|callback|cb_requires|cb_ensures|cb_assigns|cb_pure|inline|opaque|modifies|implements|lemma|call|assert|probe|uses|records|witness|forget|checks|havocs|reveal|immutable|ensures_trusted)\b`)
 
 var labelRe = regexp.MustCompile(`^\[([A-Za-z0-9_./-]+)\]\s*`)
 
@@ -889,12 +902,33 @@ func ParseSpecFile(path string, data []byte, defaultPkg string) (*SpecFile, erro
 				return nil, fmt.Errorf("%s:%d: %v", path, s.line, err)
 			}
 			sf.Axioms = append(sf.Axioms, &AxiomDef{Name: strings.TrimSpace(s.text[:i]), Expr: e, Text: s.text[i+1:], Pkg: sf.Pkg, Pos: fmt.Sprintf("%s:%d", path, s.line)})
+		case "immutable":
+			for _, part := range splitTop(s.text, ',') {
+				if part = strings.TrimSpace(part); part != "" {
+					sf.Immutables = append(sf.Immutables, ImmutableDef{Spec: part, Pkg: sf.Pkg})
+				}
+			}
+		case "ensures_trusted":
+			if cur == nil {
+				return nil, fmt.Errorf("%s:%d: ensures_trusted outside func", path, s.line)
+			}
+			cl, err := mkClause(s)
+			if err != nil {
+				return nil, err
+			}
+			cl.Trusted = true
+			cur.Ensures = append(cur.Ensures, cl)
 		case "ghost":
 			f := strings.Fields(s.text)
 			if len(f) < 2 {
 				return nil, fmt.Errorf("%s:%d: ghost name type", path, s.line)
 			}
-			sf.Ghosts = append(sf.Ghosts, &GhostDef{Name: f[0], Type: strings.Join(f[1:], " "), Pkg: sf.Pkg})
+			prot := false
+			if f[len(f)-1] == "protected" {
+				prot = true
+				f = f[:len(f)-1]
+			}
+			sf.Ghosts = append(sf.Ghosts, &GhostDef{Name: f[0], Type: strings.Join(f[1:], " "), Pkg: sf.Pkg, Protected: prot})
 		}
 	}
 	return sf, nil
